@@ -980,3 +980,607 @@ theorem reduce_and_eq_inter (g0 : GeoBox) (hdet : g0.aff.det ≠ 0) (r : Rect) (
 example : (⟨0, 0, 0, 3⟩ : Rect).Valid := ⟨by decide, by decide⟩
 
 end OdcGeo.C16
+
+namespace OdcGeo.C16
+open OdcGeo
+
+/-! ## Part R — `BoundingBox.boundary(n)` for every `n ≥ 2` -/
+
+theorem mapM_ok_of_forall {α β : Type} (f : α → Res β) (g : α → β) (l : List α) (h : ∀ x ∈ l, f x = .ok (g x)) :
+    l.mapM f = .ok (l.map g) := by
+  induction l with
+  | nil => rfl
+  | cons x xs ih =>
+    have hx := h x (List.mem_cons_self ..)
+    have hxs := ih (fun y hy => h y (List.mem_cons_of_mem _ hy))
+    simp only [List.mapM_cons, hx, hxs, List.map_cons, bind, Except.bind, pure, Except.pure]
+
+/-- the `i`-th sample of `linspace(a, b, n)` -/
+def linPt (a b : Rat) (n i : Nat) : Rat := a + (i : Rat) * ((b - a) / ((n : Rat) - 1))
+
+theorem linspaceQ_get (a b : Rat) (n i : Nat) (hn : 2 ≤ n) (hi : i < n) :
+    (linspaceQ a b n)[i]? = some (linPt a b n i) := by
+  have h1 : n ≠ 1 := by omega
+  simp only [linspaceQ, if_neg h1, List.getElem?_map, List.getElem?_range hi, Option.map_some, linPt]
+
+theorem linPt_zero (a b : Rat) (n : Nat) : linPt a b n 0 = a := by simp [linPt]
+
+theorem linPt_last (a b : Rat) (n : Nat) (hn : 2 ≤ n) : linPt a b n (n - 1) = b := by
+  have h : ((n : Rat) - 1) ≠ 0 := by
+    have : (2 : Rat) ≤ n := by exact_mod_cast hn
+    intro h0; linarith
+  have hc : ((n - 1 : Nat) : Rat) = (n : Rat) - 1 := by
+    rw [Nat.cast_sub (by omega)]; simp
+  simp only [linPt, hc]
+  field_simp
+  ring
+
+/-- every sample is a convex combination of the two ends -/
+theorem linPt_between (a b : Rat) (n i : Nat) (hn : 2 ≤ n) (hi : i < n) :
+    ∃ t : Rat, 0 ≤ t ∧ t ≤ 1 ∧ linPt a b n i = a + t * (b - a) := by
+  have hpos : (0 : Rat) < (n : Rat) - 1 := by
+    have : (2 : Rat) ≤ n := by exact_mod_cast hn
+    linarith
+  refine ⟨(i : Rat) / ((n : Rat) - 1), div_nonneg (Nat.cast_nonneg i) hpos.le, ?_, ?_⟩
+  · rw [div_le_one hpos]
+    have : (i : Rat) + 1 ≤ n := by exact_mod_cast hi
+    linarith
+  · simp only [linPt]; field_simp
+
+theorem mem_edgeIndexClosed (n : Nat) (hn : 2 ≤ n) (ij : Nat × Nat) (h : ij ∈ edgeIndexClosed n) :
+    ij.1 < n ∧ ij.2 < n ∧ (ij.1 = 0 ∨ ij.1 = n - 1 ∨ ij.2 = 0 ∨ ij.2 = n - 1) := by
+  simp only [edgeIndexClosed, List.mem_append, List.mem_map, List.mem_range, List.mem_reverse, List.mem_cons,
+    List.mem_nil_iff, or_false] at h
+  rcases h with (((⟨i, hi, rfl⟩ | ⟨j, hj, rfl⟩) | ⟨i, hi, rfl⟩) | ⟨j, hj, rfl⟩) | rfl
+  · exact ⟨hi, by omega, Or.inr (Or.inr (Or.inl rfl))⟩
+  · exact ⟨by omega, by simp only; omega, Or.inr (Or.inl rfl)⟩
+  · exact ⟨by simp only; omega, by simp only; omega, Or.inr (Or.inr (Or.inr rfl))⟩
+  · exact ⟨by omega, by simp only; omega, Or.inl rfl⟩
+  · exact ⟨by simp only; omega, by simp only; omega, Or.inl rfl⟩
+
+theorem length_edgeIndexClosed (n : Nat) (hn : 2 ≤ n) : (edgeIndexClosed n).length = 4 * (n - 1) + 1 := by
+  simp only [edgeIndexClosed, List.length_append, List.length_map, List.length_range, List.length_reverse,
+    List.length_cons, List.length_nil]
+  omega
+
+/-- **`boundary(n)` for every `n ≥ 2`** (any box, inverted ones included): the call succeeds; it returns
+`4(n-1) + 1` points; the walk is closed and starts at `(left, bottom)`; the four corners are on it; every
+point lies on the perimeter — on the left or right edge at a height between bottom and top, or on the
+bottom or top edge at an abscissa between left and right. -/
+theorem bbox_boundary_spec (bb : BBox Rat) (n : Nat) (hn : 2 ≤ n) :
+    ∃ pts, bb.boundary n = .ok pts ∧ pts.length = 4 * (n - 1) + 1 ∧
+      pts.head? = some (bb.left, bb.bottom) ∧ pts.getLast? = some (bb.left, bb.bottom) ∧
+      (bb.left, bb.bottom) ∈ pts ∧ (bb.right, bb.bottom) ∈ pts ∧ (bb.right, bb.top) ∈ pts ∧ (bb.left, bb.top) ∈ pts ∧
+      ∀ p ∈ pts,
+        ((p.1 = bb.left ∨ p.1 = bb.right) ∧ ∃ t : Rat, 0 ≤ t ∧ t ≤ 1 ∧ p.2 = bb.bottom + t * (bb.top - bb.bottom)) ∨
+        ((p.2 = bb.bottom ∨ p.2 = bb.top) ∧ ∃ t : Rat, 0 ≤ t ∧ t ≤ 1 ∧ p.1 = bb.left + t * (bb.right - bb.left)) := by
+  let P : Nat × Nat → Pt := fun ij => (linPt bb.left bb.right n ij.1, linPt bb.bottom bb.top n ij.2)
+  have hok : bb.boundary n = .ok ((edgeIndexClosed n).map P) := by
+    unfold BBox.boundary
+    apply mapM_ok_of_forall
+    intro ij hij
+    obtain ⟨h1, h2, -⟩ := mem_edgeIndexClosed n hn ij hij
+    simp only [linspaceQ_get _ _ n _ hn h1, linspaceQ_get _ _ n _ hn h2, P]
+  have memP : ∀ i j, (i, j) ∈ edgeIndexClosed n → P (i, j) ∈ (edgeIndexClosed n).map P :=
+    fun i j h => List.mem_map_of_mem h
+  have m00 : (0, 0) ∈ edgeIndexClosed n := by simp [edgeIndexClosed]
+  have m10 : (n - 1, 0) ∈ edgeIndexClosed n := by
+    simp only [edgeIndexClosed, List.mem_append, List.mem_map, List.mem_range]
+    exact Or.inl (Or.inl (Or.inl (Or.inl ⟨n - 1, by omega, rfl⟩)))
+  have m11 : (n - 1, n - 1) ∈ edgeIndexClosed n := by
+    simp only [edgeIndexClosed, List.mem_append, List.mem_map, List.mem_range]
+    exact Or.inl (Or.inl (Or.inl (Or.inr ⟨n - 2, by omega, by congr 1; omega⟩)))
+  have m01 : (0, n - 1) ∈ edgeIndexClosed n := by
+    simp only [edgeIndexClosed, List.mem_append, List.mem_map, List.mem_range, List.mem_reverse]
+    exact Or.inl (Or.inl (Or.inr ⟨0, by omega, rfl⟩))
+  have e00 : P (0, 0) = (bb.left, bb.bottom) := by simp only [P, linPt_zero]
+  have e10 : P (n - 1, 0) = (bb.right, bb.bottom) := by simp only [P, linPt_zero, linPt_last _ _ n hn]
+  have e11 : P (n - 1, n - 1) = (bb.right, bb.top) := by simp only [P, linPt_last _ _ n hn]
+  have e01 : P (0, n - 1) = (bb.left, bb.top) := by simp only [P, linPt_zero, linPt_last _ _ n hn]
+  refine ⟨_, hok, by rw [List.length_map, length_edgeIndexClosed n hn], ?_, ?_, ?_, ?_, ?_, ?_, ?_⟩
+  · have : (edgeIndexClosed n).head? = some (0, 0) := by
+      obtain ⟨k, rfl⟩ : ∃ k, n = k + 2 := ⟨n - 2, by omega⟩
+      simp [edgeIndexClosed, List.range_succ_eq_map]
+    rw [List.head?_map, this, Option.map_some, e00]
+  · have : (edgeIndexClosed n).getLast? = some (0, 0) := by simp [edgeIndexClosed]
+    rw [List.getLast?_map, this, Option.map_some, e00]
+  · rw [← e00]; exact memP _ _ m00
+  · rw [← e10]; exact memP _ _ m10
+  · rw [← e11]; exact memP _ _ m11
+  · rw [← e01]; exact memP _ _ m01
+  · intro p hp
+    obtain ⟨ij, hij, rfl⟩ := List.mem_map.mp hp
+    obtain ⟨h1, h2, hedge⟩ := mem_edgeIndexClosed n hn ij hij
+    rcases hedge with h | h | h | h
+    · left; exact ⟨Or.inl (by simp only [P, h, linPt_zero]), linPt_between _ _ n _ hn h2⟩
+    · left; exact ⟨Or.inr (by simp only [P, h, linPt_last _ _ n hn]), linPt_between _ _ n _ hn h2⟩
+    · right; exact ⟨Or.inl (by simp only [P, h, linPt_zero]), linPt_between _ _ n _ hn h1⟩
+    · right; exact ⟨Or.inr (by simp only [P, h, linPt_last _ _ n hn]), linPt_between _ _ n _ hn h1⟩
+
+example : (2 : Nat) ≤ 16 := by decide
+
+end OdcGeo.C16
+
+namespace OdcGeo.C16
+open OdcGeo
+
+/-! ## Part S — `BoundingBox.map_bounds` / `aoi` dispatch, `GCPGeoBox.project` -/
+
+/-- `map_bounds`: `((south, west), (north, east))` read off the box itself without CRS or in lon/lat
+(pyproj is not consulted), otherwise off the lon/lat images of the corners `(left, bottom)` and
+`(right, top)` — latitude first in both cases -/
+theorem bbox_mapBounds_spec (bb : BBox Rat) (r1 r2 : Reproj) (ll : Nat) :
+    (bb.crs = none ∨ bb.crs = some ll →
+      bb.mapBounds r1 ll = ((bb.bottom, bb.left), (bb.top, bb.right)) ∧ bb.mapBounds r1 ll = bb.mapBounds r2 ll) ∧
+    (bb.crs ≠ none → bb.crs ≠ some ll →
+      bb.mapBounds r1 ll = (((r1 bb.crs (some ll) (bb.left, bb.bottom)).2, (r1 bb.crs (some ll) (bb.left, bb.bottom)).1),
+                            ((r1 bb.crs (some ll) (bb.right, bb.top)).2, (r1 bb.crs (some ll) (bb.right, bb.top)).1))) := by
+  constructor
+  · intro h
+    have h' : bb.crs = some ll ∨ bb.crs = none := h.symm
+    simp [BBox.mapBounds, h']
+  · intro h1 h2
+    simp [BBox.mapBounds, h1, h2]
+
+/-- `aoi` never fails; it is the box itself without CRS or in lon/lat and `to_crs("epsg:4326")` otherwise,
+hence the smallest lon/lat box around the images of the ring of the box -/
+theorem bbox_aoi_spec (bb : BBox Rat) (reproj : Reproj) (ll : Nat) :
+    (bb.crs = none ∨ bb.crs = some ll → bb.aoi reproj ll = .ok (bb.left, bb.bottom, bb.right, bb.top)) ∧
+    (bb.crs ≠ none → bb.crs ≠ some ll → ∃ o, bb.toCrs reproj ll = .ok o ∧
+      bb.aoi reproj ll = .ok (o.left, o.bottom, o.right, o.top) ∧
+      ∀ q ∈ bb.ringHead :: bb.ringTail, o.Contains (reproj bb.crs (some ll) q)) := by
+  constructor
+  · intro h; simp [BBox.aoi, h]
+  · intro h1 h2
+    obtain ⟨o, ho, -, hc, -⟩ := (bbox_toCrs_spec bb reproj ll).2 h1
+    refine ⟨o, ho, by simp [BBox.aoi, h1, h2, ho], ?_⟩
+    intro q hq
+    have := hc q hq
+    simpa [h2] using this
+
+/-- `GCPGeoBox.project` with the identity mapping is the linear `project`; with any mapping whose
+`w2p` undoes `p2w`, projecting to the world and back is the identity -/
+theorem gcpProject_spec (g : GeoBox) (reproj : Reproj) (crs : Option Nat) (p : Pt) (ps : List Pt) :
+    gcpProject g (fun q => q) (fun q => q) reproj crs p ps = g.project reproj crs p ps ∧
+    (∀ (P Q : Pt → Pt), (∀ q, Q (P q) = q) → g.aff.det ≠ 0 → g.crs ≠ none →
+      ∃ w ws, gcpProject g P Q reproj none p ps = .ok (g.crs, w, ws) ∧
+        gcpProject g P Q reproj g.crs w ws = .ok (none, p, ps)) := by
+  constructor
+  · unfold gcpProject GeoBox.project
+    rfl
+  · intro P Q hPQ hdet hg
+    refine ⟨P (g.aff.apply p), ps.map (fun q => P (g.aff.apply q)), by simp [gcpProject], ?_⟩
+    simp only [gcpProject, if_neg hg, Aff.inv?, if_neg hdet, if_true, List.map_map, Function.comp_def, hPQ,
+      Aff.inv_apply_apply g.aff hdet]
+    simp
+
+end OdcGeo.C16
+
+namespace OdcGeo.C16
+open OdcGeo
+
+/-! ## Part T — `enclosing` in world units on ANY invertible grid (rotated, sheared) -/
+
+theorem lin_near (a b X X' Y Y' : Rat) (hx : |X - X'| ≤ 1) (hy : |Y - Y'| ≤ 1) :
+    a * X' + b * Y' - (|a| + |b|) ≤ a * X + b * Y ∧ a * X + b * Y ≤ a * X' + b * Y' + (|a| + |b|) := by
+  have h1 : |a * (X - X')| ≤ |a| := by
+    rw [abs_mul]; exact mul_le_of_le_one_right (abs_nonneg a) hx
+  have h2 : |b * (Y - Y')| ≤ |b| := by
+    rw [abs_mul]; exact mul_le_of_le_one_right (abs_nonneg b) hy
+  obtain ⟨l1, u1⟩ := abs_le.mp h1
+  obtain ⟨l2, u2⟩ := abs_le.mp h2
+  constructor <;> nlinarith
+
+/-- two boxes whose edges differ by at most one unit have images whose bounding boxes differ by at most
+the bounding box of the image of a unit square: `|a| + |b|` across, `|d| + |e|` up -/
+theorem bbox_transform_near (R P : BBox Rat) (A : Aff) (h1 : |R.left - P.left| ≤ 1) (h2 : |R.bottom - P.bottom| ≤ 1)
+    (h3 : |R.right - P.right| ≤ 1) (h4 : |R.top - P.top| ≤ 1) :
+    (P.transform A).left - (|A.a| + |A.b|) ≤ (R.transform A).left ∧
+    (P.transform A).bottom - (|A.d| + |A.e|) ≤ (R.transform A).bottom ∧
+    (R.transform A).right ≤ (P.transform A).right + (|A.a| + |A.b|) ∧
+    (R.transform A).top ≤ (P.transform A).top + (|A.d| + |A.e|) := by
+  -- the images of the four corners of P are inside P.transform A
+  have kP : ∀ x ∈ [P.left, P.right], ∀ y ∈ [P.bottom, P.top],
+      (P.transform A).left ≤ A.a * x + A.b * y + A.c ∧ A.a * x + A.b * y + A.c ≤ (P.transform A).right ∧
+      (P.transform A).bottom ≤ A.d * x + A.e * y + A.f ∧ A.d * x + A.e * y + A.f ≤ (P.transform A).top := by
+    intro x hx y hy
+    simp only [List.mem_cons, List.mem_nil_iff, or_false] at hx hy
+    have hl := minL_le (A.apply (P.left, P.bottom)).1 [(A.apply (P.left, P.top)).1, (A.apply (P.right, P.bottom)).1, (A.apply (P.right, P.top)).1]
+    have hr := le_maxL (A.apply (P.left, P.bottom)).1 [(A.apply (P.left, P.top)).1, (A.apply (P.right, P.bottom)).1, (A.apply (P.right, P.top)).1]
+    have hb := minL_le (A.apply (P.left, P.bottom)).2 [(A.apply (P.left, P.top)).2, (A.apply (P.right, P.bottom)).2, (A.apply (P.right, P.top)).2]
+    have ht := le_maxL (A.apply (P.left, P.bottom)).2 [(A.apply (P.left, P.top)).2, (A.apply (P.right, P.bottom)).2, (A.apply (P.right, P.top)).2]
+    simp only [BBox.transform, bboxOfPoints, List.map]
+    simp only [Aff.apply, List.mem_cons, List.mem_nil_iff, or_false, forall_eq_or_imp, forall_eq] at hl hr hb ht
+    rcases hx with rfl | rfl <;> rcases hy with rfl | rfl
+    · exact ⟨hl.1, hr.1, hb.1, ht.1⟩
+    · exact ⟨hl.2.1, hr.2.1, hb.2.1, ht.2.1⟩
+    · exact ⟨hl.2.2.1, hr.2.2.1, hb.2.2.1, ht.2.2.1⟩
+    · exact ⟨hl.2.2.2, hr.2.2.2, hb.2.2.2, ht.2.2.2⟩
+  -- every corner of R is within one unit of the matching corner of P
+  have near : ∀ (x x' y y' : Rat), |x - x'| ≤ 1 → |y - y'| ≤ 1 → x' ∈ [P.left, P.right] → y' ∈ [P.bottom, P.top] →
+      (P.transform A).left - (|A.a| + |A.b|) ≤ A.a * x + A.b * y + A.c ∧
+      A.a * x + A.b * y + A.c ≤ (P.transform A).right + (|A.a| + |A.b|) ∧
+      (P.transform A).bottom - (|A.d| + |A.e|) ≤ A.d * x + A.e * y + A.f ∧
+      A.d * x + A.e * y + A.f ≤ (P.transform A).top + (|A.d| + |A.e|) := by
+    intro x x' y y' hx hy mx my
+    obtain ⟨k1, k2, k3, k4⟩ := kP x' mx y' my
+    obtain ⟨a1, a2⟩ := lin_near A.a A.b x x' y y' hx hy
+    obtain ⟨b1, b2⟩ := lin_near A.d A.e x x' y y' hx hy
+    refine ⟨by linarith, by linarith, by linarith, by linarith⟩
+  have c1 := near R.left P.left R.bottom P.bottom h1 h2 (by simp) (by simp)
+  have c2 := near R.left P.left R.top P.top h1 h4 (by simp) (by simp)
+  have c3 := near R.right P.right R.bottom P.bottom h3 h2 (by simp) (by simp)
+  have c4 := near R.right P.right R.top P.top h3 h4 (by simp) (by simp)
+  clear kP near
+  generalize P.transform A = T at *
+  simp only [BBox.transform, bboxOfPoints, List.map]
+  refine ⟨?_, ?_, ?_, ?_⟩
+  · rcases minL_mem (A.apply (R.left, R.bottom)).1
+      [(A.apply (R.left, R.top)).1, (A.apply (R.right, R.bottom)).1, (A.apply (R.right, R.top)).1] with e | e
+    · rw [e]; exact c1.1
+    · simp only [List.mem_cons, List.mem_nil_iff, or_false] at e
+      rcases e with e | e | e <;> rw [e]
+      exacts [c2.1, c3.1, c4.1]
+  · rcases minL_mem (A.apply (R.left, R.bottom)).2
+      [(A.apply (R.left, R.top)).2, (A.apply (R.right, R.bottom)).2, (A.apply (R.right, R.top)).2] with e | e
+    · rw [e]; exact c1.2.2.1
+    · simp only [List.mem_cons, List.mem_nil_iff, or_false] at e
+      rcases e with e | e | e <;> rw [e]
+      exacts [c2.2.2.1, c3.2.2.1, c4.2.2.1]
+  · rcases maxL_mem (A.apply (R.left, R.bottom)).1
+      [(A.apply (R.left, R.top)).1, (A.apply (R.right, R.bottom)).1, (A.apply (R.right, R.top)).1] with e | e
+    · rw [e]; exact c1.2.1
+    · simp only [List.mem_cons, List.mem_nil_iff, or_false] at e
+      rcases e with e | e | e <;> rw [e]
+      exacts [c2.2.1, c3.2.1, c4.2.1]
+  · rcases maxL_mem (A.apply (R.left, R.bottom)).2
+      [(A.apply (R.left, R.top)).2, (A.apply (R.right, R.bottom)).2, (A.apply (R.right, R.top)).2] with e | e
+    · rw [e]; exact c1.2.2.2
+    · simp only [List.mem_cons, List.mem_nil_iff, or_false] at e
+      rcases e with e | e | e <;> rw [e]
+      exacts [c2.2.2.2, c3.2.2.2, c4.2.2.2]
+
+/-- the tight pixel box of a region: bounds of the pixel coordinates of its (re-projected) coordinates -/
+def Region.pixBox (r : Region) (reproj : Reproj) (g : GeoBox) : BBox Rat :=
+  bboxOfPoints (g.aff.inv.apply (r.worldHead reproj g.crs)) ((r.worldTail reproj g.crs).map g.aff.inv.apply) none
+
+/-- one axis of the outward rounding: `[⌊l⌋, ⌊l⌋ + max 1 (⌈r⌉ - ⌊l⌋)]` contains `[l, r]` and each end is
+within one unit of the matching end -/
+theorem round_axis (l r : Rat) (hlr : l ≤ r) :
+    ((l.floor : Rat) ≤ l ∧ r ≤ ((l.floor + max 1 (r.ceil - l.floor) : Int) : Rat)) ∧
+    |(l.floor : Rat) - l| ≤ 1 ∧ |((l.floor + max 1 (r.ceil - l.floor) : Int) : Rat) - r| ≤ 1 := by
+  have a1 := Rat.floor_le l
+  have a2 := Rat.lt_floor_add_one l
+  have b1 : r ≤ (r.ceil : Rat) := Rat.le_ceil
+  have b2 : (r.ceil : Rat) < r + 1 := Rat.ceil_lt
+  push_cast at a2
+  rcases le_total 1 (r.ceil - l.floor) with h | h
+  · rw [max_eq_right h]
+    have e : ((l.floor + (r.ceil - l.floor) : Int) : Rat) = (r.ceil : Rat) := by push_cast; ring
+    rw [e]
+    refine ⟨⟨a1, b1⟩, ?_, ?_⟩
+    · rw [abs_le]; constructor <;> linarith
+    · rw [abs_le]; constructor <;> linarith
+  · rw [max_eq_left h]
+    have hc : (r.ceil : Rat) ≤ (l.floor : Rat) + 1 := by exact_mod_cast (show r.ceil ≤ l.floor + 1 by omega)
+    have e : ((l.floor + 1 : Int) : Rat) = (l.floor : Rat) + 1 := by push_cast; ring
+    rw [e]
+    refine ⟨⟨a1, by linarith⟩, ?_, ?_⟩
+    · rw [abs_le]; constructor <;> linarith
+    · rw [abs_le]; constructor <;> linarith
+
+/-- **`enclosing` in world units on any invertible grid** (rotated, sheared, mirrored; any region type,
+same or other CRS): with `T` the world bounding box of the region's tight pixel box, the world bounding
+box of the result contains `T` and exceeds it by at most the world bounding box of ONE pixel per side —
+`|a| + |b|` across and `|d| + |e|` up. -/
+theorem enclosing_world_excess (g : GeoBox) (hdet : g.aff.det ≠ 0) (hg : g.crs ≠ none) (reproj : Reproj)
+    (r : Region) (hr : r.crs ≠ none) :
+    ∃ res : GeoBox, g.enclosingRegion reproj r = .ok res ∧
+      ((r.pixBox reproj g).transform g.aff).Within res.boundingbox ∧
+      ((r.pixBox reproj g).transform g.aff).left - (|g.aff.a| + |g.aff.b|) ≤ res.boundingbox.left ∧
+      ((r.pixBox reproj g).transform g.aff).bottom - (|g.aff.d| + |g.aff.e|) ≤ res.boundingbox.bottom ∧
+      res.boundingbox.right ≤ ((r.pixBox reproj g).transform g.aff).right + (|g.aff.a| + |g.aff.b|) ∧
+      res.boundingbox.top ≤ ((r.pixBox reproj g).transform g.aff).top + (|g.aff.d| + |g.aff.e|) := by
+  have hx : (r.pixBox reproj g).left ≤ (r.pixBox reproj g).right :=
+    (minL_le _ _).1.trans (le_maxL _ _).1
+  have hy : (r.pixBox reproj g).bottom ≤ (r.pixBox reproj g).top :=
+    (minL_le _ _).1.trans (le_maxL _ _).1
+  obtain ⟨⟨x1, x2⟩, x3, x4⟩ := round_axis _ _ hx
+  obtain ⟨⟨y1, y2⟩, y3, y4⟩ := round_axis _ _ hy
+  let P := r.pixBox reproj g
+  let R : Rect := ⟨P.left.floor, P.bottom.floor, P.left.floor + max 1 (P.right.ceil - P.left.floor),
+    P.bottom.floor + max 1 (P.top.ceil - P.bottom.floor)⟩
+  have hres : g.enclosingRegion reproj r = .ok (onGrid g R) := by
+    rw [enclosingRegion_eq]
+    simp only [GeoBox.enclosing, if_neg hr, if_neg hg, Aff.inv?, if_neg hdet, BBox.round, GeoBox.translatePix,
+      onGrid, R, P, Region.pixBox]
+    congr 2 <;> ring
+  refine ⟨_, hres, ?_, ?_⟩
+  · rw [boundingbox_onGrid]
+    have := bbox_transform_mono P ⟨(R.x0 : Rat), (R.y0 : Rat), (R.x1 : Rat), (R.y1 : Rat), g.crs⟩ g.aff
+      ⟨x1, hx.trans x2, y1, hy.trans y2⟩ ⟨x1.trans hx, x2, y1.trans hy, y2⟩
+    exact this
+  · rw [boundingbox_onGrid]
+    exact bbox_transform_near ⟨(R.x0 : Rat), (R.y0 : Rat), (R.x1 : Rat), (R.y1 : Rat), g.crs⟩ P g.aff x3 y3 x4 y4
+
+/-- non-vacuity: a rotated grid with a CRS and a region with a CRS -/
+example : ∃ (g : GeoBox) (r : Region), g.aff.det ≠ 0 ∧ g.crs ≠ none ∧ r.crs ≠ none :=
+  ⟨⟨4, 5, ⟨3, -4, 100, 4, 3, 200⟩, some 1⟩, .geom (some 2) (1, 2) [(3, 4)], by simp [Aff.det]; norm_num, by simp,
+    by simp [Region.crs]⟩
+
+end OdcGeo.C16
+
+namespace OdcGeo.C16
+open OdcGeo
+
+/-! ## Part U — shifting the reference by whole pixels shifts the pixel-domain box -/
+
+/-- `~(A * T(m, n)) * G = T(-m, -n) * (~A * G)` -/
+theorem inv_shift_mul (A G : Aff) (hdet : A.det ≠ 0) (m n : Rat) :
+    (A * Aff.translation m n).inv * G = Aff.translation (-m) (-n) * (A.inv * G) := by
+  have hB : (A * Aff.translation m n).det ≠ 0 := by rw [det_mul_translation]; exact hdet
+  have hY : (A * Aff.translation m n) * (Aff.translation (-m) (-n) * (A.inv * G)) = G := by
+    rw [Aff.mul_assoc', ← Aff.mul_assoc' (Aff.translation m n), translation_mul_translation]
+    simp only [add_neg_cancel, translation_zero, Aff.id_mul]
+    rw [← Aff.mul_assoc', Aff.mul_inv_self A hdet, Aff.id_mul]
+  calc (A * Aff.translation m n).inv * G
+      = (A * Aff.translation m n).inv * ((A * Aff.translation m n) * (Aff.translation (-m) (-n) * (A.inv * G))) := by
+        rw [hY]
+    _ = Aff.translation (-m) (-n) * (A.inv * G) := by
+        rw [← Aff.mul_assoc', Aff.inv_mul_self _ hB, Aff.id_mul]
+
+/-- `is_almost_int` does not see whole-number shifts -/
+theorem isAlmostInt_sub_int (x tol : Rat) (m : Int) : isAlmostInt (x - m) tol = isAlmostInt x tol := by
+  rw [Bool.eq_iff_iff]
+  constructor
+  · intro h
+    obtain ⟨k, hk⟩ := isAlmostInt_near _ _ h
+    exact isAlmostInt_of_near x tol (k + m) (by push_cast; rwa [show x - ((k : Rat) + m) = x - m - k by ring])
+  · intro h
+    obtain ⟨k, hk⟩ := isAlmostInt_near _ _ h
+    exact isAlmostInt_of_near (x - m) tol (k - m) (by push_cast; rwa [show x - m - ((k : Rat) - m) = x - k by ring])
+
+/-- on accepted offsets (`tol ≤ 1/2`) `round` commutes with whole-number shifts (away from the ties) -/
+theorem pyRound_sub_int (x tol : Rat) (m : Int) (htol : tol ≤ 1 / 2) (h : isAlmostInt x tol = true) :
+    pyRound (x - m) = pyRound x - m := by
+  obtain ⟨k, hk⟩ := isAlmostInt_near _ _ h
+  have hk' : |x - k| < 1 / 2 := lt_of_lt_of_le hk htol
+  rw [pyRound_near x k hk', pyRound_near (x - m) (k - m) (by push_cast; rwa [show x - m - ((k : Rat) - m) = x - k by ring])]
+
+/-- `pixel_translation(g, ref')` for a reference moved by `(m, n)` pixels -/
+theorem pixelTranslation_ref_shift (g ref ref' : GeoBox) (hdet : ref.aff.det ≠ 0) (m n : Rat)
+    (ha : ref'.aff = ref.aff * Aff.translation m n) (hc : ref'.crs = ref.crs) :
+    pixelTranslation g ref' = (pixelTranslation g ref).map (fun t => (t.1 - m, t.2 - n)) := by
+  have hB : (ref.aff * Aff.translation m n).det ≠ 0 := by rw [det_mul_translation]; exact hdet
+  unfold pixelTranslation
+  rw [hc]
+  by_cases h : g.crs = ref.crs
+  · simp only [h, ne_eq, not_true_eq_false, if_false, ha, Aff.inv?, if_neg hdet, if_neg hB, inv_shift_mul _ _ hdet]
+    have e : Aff.translation (-m) (-n) * (ref.aff.inv * g.aff) =
+        ⟨(ref.aff.inv * g.aff).a, (ref.aff.inv * g.aff).b, (ref.aff.inv * g.aff).c - m,
+         (ref.aff.inv * g.aff).d, (ref.aff.inv * g.aff).e, (ref.aff.inv * g.aff).f - n⟩ := by
+      generalize ref.aff.inv * g.aff = M
+      simp only [Aff.mul_def, Aff.mul, Aff.translation]
+      ext <;> simp <;> ring
+    rw [e]
+    simp only
+    split_ifs <;> rfl
+  · simp [h]
+    rfl
+
+/-- **Shifting the reference by whole pixels shifts the pixel-domain box** (any operand — on the grid,
+off it within the tolerances, incompatible, other CRS — and any `0 < tol ≤ 1/2`): the same operands are
+accepted, and the box moves by exactly `(-m, -n)`. -/
+theorem bbpd_ref_shift (g ref ref' : GeoBox) (hdet : ref.aff.det ≠ 0) (m n : Int)
+    (ha : ref'.aff = ref.aff * Aff.translation m n) (hc : ref'.crs = ref.crs) (tol : Rat) (htol : tol ≤ 1 / 2) :
+    bboxInPixelDomain g ref' tol =
+      (bboxInPixelDomain g ref tol).map (fun bb => ⟨bb.left - m, bb.bottom - n, bb.right - m, bb.top - n, none⟩) := by
+  unfold bboxInPixelDomain
+  rw [pixelTranslation_ref_shift g ref ref' hdet m n ha hc]
+  cases hp : pixelTranslation g ref with
+  | error e => rfl
+  | ok t =>
+    obtain ⟨tx, ty⟩ := t
+    simp only [Except.map, isAlmostInt_sub_int]
+    by_cases hacc : (isAlmostInt tx tol && isAlmostInt ty tol) = true
+    · have h1 : isAlmostInt tx tol = true := by simp only [Bool.and_eq_true] at hacc; exact hacc.1
+      have h2 : isAlmostInt ty tol = true := by simp only [Bool.and_eq_true] at hacc; exact hacc.2
+      simp only [hacc, Bool.not_true, Bool.false_eq_true, if_false, pyRound_sub_int _ _ _ htol h1,
+        pyRound_sub_int _ _ _ htol h2]
+      congr 2 <;> ring
+    · have : (isAlmostInt tx tol && isAlmostInt ty tol) = false := by simpa using hacc
+      simp [this]
+
+example : tolPix ≤ 1 / 2 := by unfold tolPix; norm_num
+
+end OdcGeo.C16
+
+namespace OdcGeo.C16
+open OdcGeo
+
+/-! ## Part V — `reduce(|)` = `geobox_union_conservative` for ARBITRARY operand lists -/
+
+theorem bbpd_crs_none (g ref : GeoBox) (tol : Rat) (bb : BBox Int) (h : bboxInPixelDomain g ref tol = .ok bb) :
+    bb.crs = none := by
+  unfold bboxInPixelDomain at h
+  cases hp : pixelTranslation g ref with
+  | error e => rw [hp] at h; cases h
+  | ok t =>
+    obtain ⟨tx, ty⟩ := t
+    rw [hp] at h
+    simp only at h
+    split at h
+    · cases h
+    · cases h; rfl
+
+theorem geoboxOfPixBBox_det (a : GeoBox) (hdet : a.aff.det ≠ 0) (U : BBox Int) :
+    (geoboxOfPixBBox a U).aff.det ≠ 0 := by
+  simp only [geoboxOfPixBBox, det_mul_translation]; exact hdet
+
+/-- one step of the fold: `(a placed on U) | g` is `a` placed on `U ∪ (g in the pixels of a)` — for every
+operand `g`, accepted or not -/
+theorem or_step (a : GeoBox) (hdet : a.aff.det ≠ 0) (U : BBox Int) (g : GeoBox) :
+    (geoboxOfPixBBox a U).or g =
+      match bboxInPixelDomain g a tolPix with
+      | .error e => .error e
+      | .ok bb => .ok (geoboxOfPixBBox a ⟨min bb.left U.left, min bb.bottom U.bottom, max bb.right U.right,
+                                          max bb.top U.top, none⟩) := by
+  have hself : bboxInPixelDomain (geoboxOfPixBBox a U) (geoboxOfPixBBox a U) tolPix =
+      .ok ⟨0, 0, U.right - U.left, U.top - U.bottom, none⟩ := by
+    have := bboxInPixelDomain_of_mul (geoboxOfPixBBox a U) (geoboxOfPixBBox a U) rfl (geoboxOfPixBBox_det a hdet U) 0 0
+      (by simp [translation_zero, Aff.mul_id]) tolPix tolPix_pos
+    simpa [geoboxOfPixBBox] using this
+  have hshift := bbpd_ref_shift g a (geoboxOfPixBBox a U) hdet U.left U.bottom rfl rfl tolPix
+    (by unfold tolPix; norm_num)
+  simp only [GeoBox.or, geoboxUnionConservative, allBBoxes, hself, hshift]
+  cases hb : bboxInPixelDomain g a tolPix with
+  | error e => simp [Except.map]
+  | ok bb =>
+    simp only [Except.map, bboxUnion, foldRes, unionStep, ne_eq, not_true_eq_false, if_false, geoboxOfPixBBox]
+    refine congrArg Except.ok ?_
+    simp only [GeoBox.mk.injEq]
+    refine ⟨by omega, by omega, ?_, trivial⟩
+    rw [Aff.mul_assoc', translation_mul_translation]
+    congr 2
+    · have : U.left + min (bb.left - U.left) 0 = min bb.left U.left := by omega
+      exact_mod_cast this
+    · have : U.bottom + min (bb.bottom - U.bottom) 0 = min bb.bottom U.bottom := by omega
+      exact_mod_cast this
+
+/-- the fold from any accumulated box: the remaining operands are measured against `a` (as the n-ary form
+does), although the fold measures them against the growing union -/
+theorem foldl_or_eq (a : GeoBox) (hdet : a.aff.det ≠ 0) (gs : List GeoBox) :
+    ∀ U : BBox Int, U.crs = none →
+      List.foldlM (fun acc g => acc.or g) (geoboxOfPixBBox a U) gs =
+        (match allBBoxes a tolPix gs with
+         | .error e => .error e
+         | .ok bbs => match foldRes unionStep U bbs with
+           | .error e => .error e
+           | .ok V => .ok (geoboxOfPixBBox a V)) := by
+  induction gs with
+  | nil => intro U _; rfl
+  | cons g gs ih =>
+    intro U hU
+    simp only [List.foldlM_cons, or_step a hdet U g, allBBoxes]
+    cases hb : bboxInPixelDomain g a tolPix with
+    | error e => rfl
+    | ok bb =>
+      have hc := bbpd_crs_none g a tolPix bb hb
+      simp only [bind, Except.bind]
+      rw [ih _ rfl]
+      cases allBBoxes a tolPix gs with
+      | error e => rfl
+      | ok bbs =>
+        simp only [foldRes, unionStep, hU, hc, ne_eq, not_true_eq_false, if_false]
+
+/-- **`functools.reduce(operator.or_, [a, g1, …, gn])` = `geobox_union_conservative([a, g1, …, gn])` for
+ARBITRARY operands** (on the grid of `a`, off it by less than the tolerances, incompatible, in another CRS,
+in any order): the same calls succeed, the same fail, and the results are the same GeoBox. -/
+theorem reduce_or_eq_union_any (a : GeoBox) (hdet : a.aff.det ≠ 0) (gs : List GeoBox) :
+    List.foldlM (fun acc g => acc.or g) a gs = geoboxUnionConservative (a :: gs) := by
+  have hself : bboxInPixelDomain a a tolPix = .ok ⟨0, 0, a.nx, a.ny, none⟩ := by
+    have := bboxInPixelDomain_of_mul a a rfl hdet 0 0 (by simp [translation_zero, Aff.mul_id]) tolPix tolPix_pos
+    simpa using this
+  have ha : a = geoboxOfPixBBox a ⟨0, 0, a.nx, a.ny, none⟩ := by
+    simp [geoboxOfPixBBox, translation_zero, Aff.mul_id]
+  conv_lhs => rw [ha]
+  rw [foldl_or_eq a hdet gs _ rfl]
+  simp only [geoboxUnionConservative, allBBoxes, hself, bboxUnion]
+  cases allBBoxes a tolPix gs with
+  | error e => rfl
+  | ok bbs => rfl
+
+/-- one step of the `&` fold -/
+theorem and_step (a : GeoBox) (hdet : a.aff.det ≠ 0) (U : BBox Int) (g : GeoBox) :
+    (geoboxOfPixBBox a U).and g =
+      match bboxInPixelDomain g a tolPix with
+      | .error e => .error e
+      | .ok bb => .ok (geoboxOfPixBBox a (normEmpty ⟨max bb.left U.left, max bb.bottom U.bottom, min bb.right U.right,
+                                                    min bb.top U.top, none⟩)) := by
+  have hself : bboxInPixelDomain (geoboxOfPixBBox a U) (geoboxOfPixBBox a U) tolPix =
+      .ok ⟨0, 0, U.right - U.left, U.top - U.bottom, none⟩ := by
+    have := bboxInPixelDomain_of_mul (geoboxOfPixBBox a U) (geoboxOfPixBBox a U) rfl (geoboxOfPixBBox_det a hdet U) 0 0
+      (by simp [translation_zero, Aff.mul_id]) tolPix tolPix_pos
+    simpa [geoboxOfPixBBox] using this
+  have hshift := bbpd_ref_shift g a (geoboxOfPixBBox a U) hdet U.left U.bottom rfl rfl tolPix
+    (by unfold tolPix; norm_num)
+  simp only [GeoBox.and, geoboxIntersectionConservative, allBBoxes, hself, hshift]
+  cases hb : bboxInPixelDomain g a tolPix with
+  | error e => simp [Except.map]
+  | ok bb =>
+    simp only [Except.map, bboxIntersection, foldRes, interStep, ne_eq, not_true_eq_false, if_false, normEmpty_eq,
+      geoboxOfPixBBox]
+    refine congrArg Except.ok ?_
+    simp only [GeoBox.mk.injEq]
+    refine ⟨by omega, by omega, ?_, trivial⟩
+    rw [Aff.mul_assoc', translation_mul_translation]
+    congr 2
+    · have : U.left + max (bb.left - U.left) 0 = max bb.left U.left := by omega
+      exact_mod_cast this
+    · have : U.bottom + max (bb.bottom - U.bottom) 0 = max bb.bottom U.bottom := by omega
+      exact_mod_cast this
+
+/-- normalising an empty intermediate result before the next `&` changes nothing after normalisation -/
+theorem normEmpty_inter_normEmpty (X b : BBox Int) :
+    normEmpty ⟨max b.left (normEmpty X).left, max b.bottom (normEmpty X).bottom, min b.right (normEmpty X).right,
+               min b.top (normEmpty X).top, none⟩ =
+    normEmpty ⟨max b.left X.left, max b.bottom X.bottom, min b.right X.right, min b.top X.top, none⟩ := by
+  simp only [normEmpty_eq, BBox.mk.injEq, and_true, true_and]
+  constructor <;> omega
+
+theorem foldl_and_eq (a : GeoBox) (hdet : a.aff.det ≠ 0) (gs : List GeoBox) :
+    ∀ X : BBox Int, X.crs = none →
+      List.foldlM (fun acc g => acc.and g) (geoboxOfPixBBox a (normEmpty X)) gs =
+        (match allBBoxes a tolPix gs with
+         | .error e => .error e
+         | .ok bbs => match foldRes interStep X bbs with
+           | .error e => .error e
+           | .ok V => .ok (geoboxOfPixBBox a (normEmpty V))) := by
+  induction gs with
+  | nil => intro X _; rfl
+  | cons g gs ih =>
+    intro X hX
+    simp only [List.foldlM_cons, and_step a hdet _ g, allBBoxes]
+    cases hb : bboxInPixelDomain g a tolPix with
+    | error e => rfl
+    | ok bb =>
+      have hc := bbpd_crs_none g a tolPix bb hb
+      simp only [bind, Except.bind, normEmpty_inter_normEmpty]
+      rw [ih ⟨max bb.left X.left, max bb.bottom X.bottom, min bb.right X.right, min bb.top X.top, none⟩ rfl]
+      cases allBBoxes a tolPix gs with
+      | error e => rfl
+      | ok bbs =>
+        simp only [foldRes, interStep, hX, hc, ne_eq, not_true_eq_false, if_false]
+
+/-- **`functools.reduce(operator.and_, [a, g1, …, gn])` = `geobox_intersection_conservative([a, g1, …, gn])`
+for ARBITRARY operands** (shapes of `a` not negative): the fold normalises an empty intermediate result at
+every step, the n-ary form only at the end; the same calls succeed and the results are the same GeoBox. -/
+theorem reduce_and_eq_inter_any (a : GeoBox) (hdet : a.aff.det ≠ 0) (hnx : 0 ≤ a.nx) (hny : 0 ≤ a.ny)
+    (gs : List GeoBox) :
+    List.foldlM (fun acc g => acc.and g) a gs = geoboxIntersectionConservative (a :: gs) := by
+  have hself : bboxInPixelDomain a a tolPix = .ok ⟨0, 0, a.nx, a.ny, none⟩ := by
+    have := bboxInPixelDomain_of_mul a a rfl hdet 0 0 (by simp [translation_zero, Aff.mul_id]) tolPix tolPix_pos
+    simpa using this
+  have hN : normEmpty ⟨0, 0, a.nx, a.ny, none⟩ = ⟨0, 0, a.nx, a.ny, none⟩ := by
+    simp only [normEmpty_eq, BBox.mk.injEq, and_true, true_and]
+    constructor <;> omega
+  have ha : a = geoboxOfPixBBox a (normEmpty ⟨0, 0, a.nx, a.ny, none⟩) := by
+    rw [hN]; simp [geoboxOfPixBBox, translation_zero, Aff.mul_id]
+  conv_lhs => rw [ha]
+  rw [foldl_and_eq a hdet gs _ rfl]
+  simp only [geoboxIntersectionConservative, allBBoxes, hself, bboxIntersection]
+  cases allBBoxes a tolPix gs with
+  | error e => rfl
+  | ok bbs => rfl
+
+/-- non-vacuity: an invertible grid with a non-negative shape; the operand list may hold anything -/
+example : ∃ a : GeoBox, a.aff.det ≠ 0 ∧ 0 ≤ a.nx ∧ 0 ≤ a.ny :=
+  ⟨⟨4, 5, ⟨3, -4, 100, 4, 3, 200⟩, some 1⟩, by simp [Aff.det]; norm_num, by decide, by decide⟩
+
+end OdcGeo.C16
+
+namespace OdcGeo.C16
+/-- non-vacuity of `gcpProject_spec`: a mapping whose `w2p` undoes `p2w` (here a shear and its inverse) -/
+example : ∃ P Q : Pt → Pt, ∀ q, Q (P q) = q :=
+  ⟨fun q => (q.1 + q.2, q.2), fun q => (q.1 - q.2, q.2), fun q => by simp⟩
+end OdcGeo.C16
